@@ -38,7 +38,7 @@ def run(tier, seed):
                 "reference and through the original; growth of the holder's buffer - after every step the bytes of ALL buffers and the "
                 "deep values are compared with the executable Lean heap model. " + "Oracle C08: aliasing (same offset, no allocation, writes visible both ways), fresh disjoint referent in the holder's buffer for plain data / foreign objects, None reads back None with member index -1, and after EVERY step every non-null reference reachable from every live object resolves (from the raw slot bytes) to the start of a live extent of the recorded member type in its own buffer - also after growth. "
                 "Component rg (tie of the PROOF model the history theorem C08_ref_history is about): random universes of node classes "
-                "(static structs of Int64 / Ref / UnionRef fields), random buffer configurations (both CPU kinds, capacity 0..1000, "
+                "(static structs of Int64 / Ref / UnionRef fields; in half of the cases every run of identical reference fields is declared as ONE static array of references - the same bytes, accessed through array.py), random buffer configurations (both CPU kinds, capacity 0..1000, "
                 "alignment 1..64, grow steps), random histories of construct / bind-to-existing / bind-to-plain-data / "
                 "bind-to-foreign-object / bind-to-null / write-through-original / write-through-ref / raw allocations / growth; after "
                 "every operation capacity, checksum of all bytes and what every reference slot of every live node denotes are compared "
